@@ -844,6 +844,122 @@ Proof.
     unfold spec_object_ok, entry_ok in I; repeat (apply andb_true_iff in I; destruct I as [I ?]); auto.
 Qed.
 
+(** * Metadata: each object carries what the multi-status says about that resource *)
+
+Lemma field_spec r n z : resp_success r = true -> field r n z = spec_field r n z.
+Proof.
+  intros H. unfold field, spec_field.
+  destruct (decode_prop_cases r n dec_val H) as [(a & E & G & V)|(e & E & G & _)]; rewrite E, G; [rewrite V|]; reflexivity.
+Qed.
+
+Lemma collect_meta_spec {A} (f : response -> cres (option A)) sel mf mf' P (g : response -> option A) l :
+  (forall r, c_is_ok (f r) = P r) -> (forall r o, f r = COk o -> o = g r) ->
+  (forall r, P r = true -> match g r with Some a => sel a = true -> mf r = mf' r | None => True end) ->
+  forallb P l = true ->
+  collect_meta f sel mf l =
+  map mf' (filter (fun r => match g r with Some a => sel a | None => false end) l).
+Proof.
+  intros Hf Hg Hm. unfold collect_meta. induction l as [|r l IH]; [reflexivity|].
+  cbn [forallb flat_map filter]. intros H. apply andb_true_iff in H. destruct H as [H1 H2].
+  rewrite (IH H2). pose proof (Hm r H1) as M. rewrite <- Hf in H1.
+  destruct (f r) as [o| |] eqn:E; try discriminate. rewrite (Hg r o E) in *.
+  destruct (g r) as [a|]; [|reflexivity]. destruct (sel a); [|reflexivity].
+  cbn [app map]. now rewrite (M eq_refl).
+Qed.
+
+Lemma collect_ok_forall {A} (f : response -> cres (option A)) P l v :
+  (forall r, c_is_ok (f r) = P r) -> collect f l = COk v -> forallb P l = true.
+Proof.
+  intros Hf E. destruct (forallb P l) eqn:F; [reflexivity|].
+  pose proof (collect_not_ok f P Hf l F) as K. rewrite E in K. discriminate.
+Qed.
+
+Lemma filter_true {A} (l : list A) : filter (fun _ => true) l = l.
+Proof. induction l; simpl; congruence. Qed.
+
+Lemma do_ms_ok r ms : do_multistatus (Resp r) = COk ms -> spec_ms r = Some ms.
+Proof.
+  rewrite do_ms_resp. destruct (success (h_status r)); [|discriminate].
+  destruct (h_status r =? 207)%N; [|discriminate]. destruct (spec_ms r); [congruence|discriminate].
+Qed.
+
+Lemma object_meta_spec r : resp_success r = true -> object_meta r = spec_object_meta r.
+Proof. intros H. unfold object_meta, spec_object_meta. now rewrite !(field_spec r _ _ H). Qed.
+Lemma collection_meta_spec a b c r : resp_success r = true -> collection_meta a b c r = spec_collection_meta a b c r.
+Proof. intros H. unfold collection_meta, spec_collection_meta. now rewrite !(field_spec r _ _ H). Qed.
+Lemma sync_meta_spec r : resp_success r = true -> sync_meta r = spec_sync_meta r.
+Proof. intros H. unfold sync_meta, spec_sync_meta. now rewrite !(field_spec r _ _ H). Qed.
+
+Lemma spec_object_success nd r : spec_object_ok nd r = true -> resp_success r = true.
+Proof. unfold spec_object_ok. intros H. repeat (apply andb_true_iff in H; destruct H as [H _]). first [exact H | now apply entry_ok_success]. Qed.
+Lemma spec_collection_success a b c d e r : spec_collection_ok a b c d e r = true -> resp_success r = true.
+Proof. unfold spec_collection_ok. intros H. repeat (apply andb_true_iff in H; destruct H as [H _]). first [exact H | now apply entry_ok_success]. Qed.
+
+(** A successful call hands out, with each object, the metadata the specification names. *)
+Theorem run_meta_spec m p r v :
+  run m p (Resp r) = COk v -> run_meta m p (Resp r) = spec_meta m p r.
+Proof.
+  intros E. unfold run_meta, spec_meta.
+  destruct (do_multistatus (Resp r)) as [ms| |] eqn:D.
+  2,3: destruct m; try reflexivity; unfold_run; unfold run, find_collections, report_objects, sync_collection in E;
+       rewrite D in E; discriminate.
+  rewrite (do_ms_ok r ms D).
+  assert (forall A (f : response -> cres (option A)) (k : list A -> value) P,
+            (forall x, c_is_ok (f x) = P x) ->
+            (cdo ms' <- do_multistatus (Resp r); cdo l <- collect f ms'; COk (k l)) = COk v ->
+            forallb P ms = true) as OKS.
+  { intros A f k P Hf K. rewrite D in K. cbn [cbind] in K.
+    destruct (collect f ms) as [l| |] eqn:C; try discriminate. exact (collect_ok_forall f P ms l Hf C). }
+  destruct m; try reflexivity.
+  - (* FindCalendars *)
+    pose proof (OKS _ _ VPaths _ (collection_item_ok n_calendar n_cal_desc n_cal_size n_cal_supp dec_compset) E) as F.
+    rewrite (collect_meta_spec _ _ _ (spec_collection_meta n_cal_desc n_cal_size n_cal_supp) _ (collection_val n_calendar) ms
+               (collection_item_ok _ _ _ _ _) (collection_item_val _ _ _ _ _)); [|..|exact F].
+    + f_equal. apply filter_ext. intros x. unfold collection_val. destruct (has_type n_calendar x); reflexivity.
+    + intros x Px. destruct (collection_val n_calendar x); [|exact I]. intros _.
+      apply collection_meta_spec. exact (spec_collection_success _ _ _ _ _ _ Px).
+  - (* QueryCalendar *)
+    pose proof (OKS _ _ VPaths _ (object_item_ok true n_cal_data) E) as F.
+    rewrite (collect_meta_spec _ _ _ spec_object_meta _ (fun x => Some (first_href x)) ms
+               (object_item_ok _ _) (object_item_val _ _)); [|..|exact F].
+    + now rewrite filter_true.
+    + intros x Px _. apply object_meta_spec. exact (spec_object_success _ _ Px).
+  - (* MultiGetCalendar *)
+    pose proof (OKS _ _ VPaths _ (object_item_ok true n_cal_data) E) as F.
+    rewrite (collect_meta_spec _ _ _ spec_object_meta _ (fun x => Some (first_href x)) ms
+               (object_item_ok _ _) (object_item_val _ _)); [|..|exact F].
+    + now rewrite filter_true.
+    + intros x Px _. apply object_meta_spec. exact (spec_object_success _ _ Px).
+  - (* FindAddressBooks *)
+    pose proof (OKS _ _ VPaths _ (collection_item_ok n_addressbook n_card_desc n_card_size n_card_supp dec_addrdata) E) as F.
+    rewrite (collect_meta_spec _ _ _ (spec_collection_meta n_card_desc n_card_size n_card_supp) _ (collection_val n_addressbook) ms
+               (collection_item_ok _ _ _ _ _) (collection_item_val _ _ _ _ _)); [|..|exact F].
+    + f_equal. apply filter_ext. intros x. unfold collection_val. destruct (has_type n_addressbook x); reflexivity.
+    + intros x Px. destruct (collection_val n_addressbook x); [|exact I]. intros _.
+      apply collection_meta_spec. exact (spec_collection_success _ _ _ _ _ _ Px).
+  - (* QueryAddressBook *)
+    pose proof (OKS _ _ VPaths _ (object_item_ok false n_card_data) E) as F.
+    rewrite (collect_meta_spec _ _ _ spec_object_meta _ (fun x => Some (first_href x)) ms
+               (object_item_ok _ _) (object_item_val _ _)); [|..|exact F].
+    + now rewrite filter_true.
+    + intros x Px _. apply object_meta_spec. exact (spec_object_success _ _ Px).
+  - (* MultiGetAddressBook *)
+    pose proof (OKS _ _ VPaths _ (object_item_ok false n_card_data) E) as F.
+    rewrite (collect_meta_spec _ _ _ spec_object_meta _ (fun x => Some (first_href x)) ms
+               (object_item_ok _ _) (object_item_val _ _)); [|..|exact F].
+    + now rewrite filter_true.
+    + intros x Px _. apply object_meta_spec. exact (spec_object_success _ _ Px).
+  - (* SyncCollection *)
+    pose proof (OKS _ _ (fun l => VSync (sync_deleted l) (sync_updated l)) _ (sync_one_ok p) E) as F.
+    rewrite (collect_meta_spec _ _ _ spec_sync_meta _ (sync_val p) ms (sync_one_ok p) (sync_one_val p)); [|..|exact F].
+    + f_equal. apply filter_ext. intros x. unfold sync_val.
+      destruct (is_deletion x); [reflexivity|]. destruct (is_self p x); reflexivity.
+    + intros x Px. unfold sync_val. destruct (is_deletion x) eqn:Dl; [intros K; discriminate K|].
+      destruct (is_self p x); [exact I|]. intros _. apply sync_meta_spec.
+      unfold spec_sync_ok in Px. rewrite Dl in Px. cbn [orb] in Px.
+      apply andb_true_iff in Px. destruct Px as [Px _]. now apply entry_ok_success.
+Qed.
+
 (** * The verdict functions *)
 
 Lemma list_eqb_eq {A} (eqb : A -> A -> bool) :
